@@ -259,6 +259,7 @@ func actProtect(e *Env, a J) J {
 	hdrBefore := J{}
 	projHeader(m.IKEHeader, hdrBefore)
 	orig := append(message.IKEPayloadContainer{}, m.Payloads...)
+	held := m.Payloads // the caller's container variable shares storage with the message's payload list
 	var key *security.IKESAKey
 	if o != nil {
 		key = o.key
@@ -277,6 +278,9 @@ func actProtect(e *Env, a J) J {
 	obs["srchdr"] = hdrAfter
 	obs["hdrsame"] = eqJ(hdrAfter, hdrBefore)
 	obs["orig"] = projChain(orig)
+	if o != nil {
+		obs["held"] = projChain(held)
+	}
 	return obs
 }
 
@@ -330,7 +334,8 @@ type heapState struct {
 	inOrig []byte
 	dmsg   *message.IKEMessage
 	src    *message.IKEMessage
-	orig   message.IKEPayloadContainer // the caller's own references to the payload objects of src
+	orig   message.IKEPayloadContainer // the caller's own references to the payload objects of src (element-wise copy)
+	held   message.IKEPayloadContainer // the caller's own container variable: the SAME slice the message was built from
 	out    []byte
 	sa     *saObj
 }
@@ -348,6 +353,7 @@ func actHeapInit(e *Env, a J) J {
 	w := gox(a, "wire")
 	h := &heapState{in: append([]byte{}, w...), inOrig: append([]byte{}, w...), src: src}
 	h.orig = append(message.IKEPayloadContainer{}, src.Payloads...)
+	h.held = src.Payloads
 	e.objs["heap"] = h
 	return J{}
 }
@@ -448,6 +454,7 @@ func actHeapProtect(e *Env, a J) J {
 	projHeader(h.src.IKEHeader, hj)
 	o["srchdr"] = hj
 	o["orig"] = projChain(h.orig)
+	o["held"] = projChain(h.held)
 	nsk := 0
 	for _, p := range h.src.Payloads {
 		if p.Type() == message.TypeSK {
@@ -463,7 +470,7 @@ func actHeapProtect(e *Env, a J) J {
 
 func actHeapObserve(e *Env, a J) J {
 	h := hstate(e)
-	o := J{"orig": projChain(h.orig)}
+	o := J{"orig": projChain(h.orig), "held": projChain(h.held)}
 	hj := J{}
 	projHeader(h.src.IKEHeader, hj)
 	o["srchdr"] = hj
